@@ -278,6 +278,31 @@ NEEDS = {
              "(or jt_dbi again) computed afterwards on the same list",
     "C20-f": "the final round of a multi-round run unlinks '*.tmp' before writing its own files: needs the monitor "
              "stopped between opening max-rss.txt.tmp and renaming it while the final round starts",
+    "C01-g": "fit() / _fit_buffers() initialise the tree when _root is None BEFORE the 'internal nodes were "
+             "released' guard: needs fit, delete_internal_nodes on a tree whose root is not a leaf, then fit "
+             "again without reset (the old leaves are unlinked, their labels are in no cluster)",
+    "C03-g": "_InitialRound adds the refinement threshold shift into self.threshold: needs the serial multi-round "
+             "path, 'full' refinement, several input files and a NEGATIVE midsection_threshold_change (later files "
+             "are clustered below every threshold of the run)",
+    "C04-g": "unpack_fingerprints cuts the packed rows to n_features // 8 bytes first: needs packed input with "
+             "n_features not a multiple of 8 and bits set among the trailing features",
+    "C06-g": "the dtype-keyed dicts of _prepare_bf_to_buffer_dicts are pre-created from a SET of dtype names: "
+             "needs two dtype groups in one input file (two clusters of 256+ members), 'full' refinement and "
+             "worker processes with another hash seed than the parent's",
+    "C07-g": "_BFSubcluster.update skips the centroid recomputation when the new fingerprint's bits are already in "
+             "the centroid: needs a tracking entry with an even count and a bit set in exactly half of its "
+             "members that the new fingerprint lacks (the tie bit must switch off)",
+    "C08-g": "_get_leaf_bfs returns the root's own entry list while the root is the only leaf, and sorts it in "
+             "place: needs a read (get_cluster_mol_ids ...) on an unsplit tree in which a later cluster outgrew an "
+             "earlier one; cache rows no longer belong to their entries",
+    "C09-g": "_fit_buffers skips buffers whose per-bit sums are all zero: needs all-zero fingerprints that form a "
+             "cluster of their own, then any re-insertion (recluster, refine, a multi-round round)",
+    "C12-g": "unpack_fingerprints unpacks a 2-D array as one flat bit stream (the mechanism of C18-f, found "
+             "independently for C12): needs >= 2 rows and n_features not a multiple of 8",
+    "C16-g": "fps-merge fills a preallocated uint8 array: needs part files of another integer dtype (the merged "
+             "file has the wrong dtype, values beyond 255 or negative wrap)",
+    "C18-g": "get_assignments checks 'sum of leaf populations == number fitted' instead of scanning for 0: needs "
+             "caller-given labels that repeat or leave a gap (a vector with unlabeled entries is returned)",
 }
 EXTRA = {"C17-a": ["C10"], "C12-a": ["C07"], "C02-a": ["C12"], "C14-b": ["C05"], "C03-b": ["C07"], "C07-b": ["C03"],
          "C05-c": ["C09"], "C02-c": ["C08"], "C09-d": ["C18"], "C03-d": ["C02", "C05"],
